@@ -12,6 +12,8 @@ MUTGEN = '/verif/.work/bin/mutgen'
 COST = dict(C01=17, C02=2, C03=10, C04=3, C05=7, C06=19, C07=4, C08=6, C09=35, C10=1, C11=6, C12=10, C13=1, C14=2, C15=6, C16=10, C17=4, C18=6, C19=13, C20=4)
 STRIDE = int(os.environ.get('MUT_STRIDE', '1'))
 DEADLINE = float(os.environ.get('MUT_DEADLINE', '0'))
+OFFSET = int(os.environ.get('MUT_OFFSET', '0'))  # with MUT_STRIDE=2: 0 = even mutant ids, 1 = odd ones
+ONLY = [x for x in os.environ.get('MUT_FILES', '').split(',') if x]  # restrict to these files
 
 def files():
     out = {}
@@ -76,18 +78,18 @@ def main():
     nw = int(sys.argv[2]) if len(sys.argv) > 2 else 6
     jobs = []
     for f, ids in sorted(files().items()):
-        if sub not in f:
+        if sub not in f or (ONLY and f not in ONLY):
             continue
         for l in subprocess.run([MUTGEN, '-list', '/repo/' + f], capture_output=True, text=True).stdout.splitlines():
             mid, line, desc = l.split('\t')
-            if int(mid) % STRIDE == 0:
+            if int(mid) % STRIDE == OFFSET % STRIDE:
                 jobs.append((f, ids, int(mid), int(line), desc))
     print(len(jobs), 'mutants', flush=True)
     chunks = [(i, jobs[i::nw]) for i in range(nw)]
     with mp.Pool(nw) as pool:
         allres = [r for rs in pool.map(worker, chunks) for r in rs]
     allres.sort()
-    tag = sub.replace('/', '_') or 'all'
+    tag = (sub.replace('/', '_') or 'all') + os.environ.get('MUT_TAG', '')
     with open(f'/verif/mutation/RESULTS_{tag}.tsv', 'w') as o:
         for r in allres:
             o.write('\t'.join(map(str, r)) + '\n')
